@@ -354,6 +354,10 @@ type c11Op struct {
 	// conditions), so the second load must replace, not extend, what the struct already carries
 	Twice    bool `json:"twice,omitempty"`
 	Unscoped bool `json:"unscoped,omitempty"` // db.Unscoped(): soft-deleted parents / children are part of the result
+	// WHERE the operation runs: "" = a plain session; tx = inside a user transaction in which the WHOLE world was inserted and
+	// is still uncommitted (a child query that leaves the transaction finds empty tables / a locked database); prepare = on a
+	// Session{PrepareStmt: true}; conn = inside db.Connection(…) on a pinned connection; txprepare = both
+	Ctx string `json:"ctx,omitempty"`
 }
 
 // an injected failure of the K-th query (0-based, counted over the queries the operation sends)
@@ -395,6 +399,20 @@ func c11InsertRows(sqlDB *sql.DB, t *c11Table, rows []c11Row) {
 	if len(rows) == 0 {
 		return
 	}
+	tx, err := sqlDB.Begin()
+	if err != nil {
+		panic(err)
+	}
+	c11InsertRowsVia(func(q string, args ...interface{}) error { _, e := tx.Exec(q, args...); return e }, t, rows)
+	if err := tx.Commit(); err != nil {
+		panic(err)
+	}
+}
+
+func c11InsertRowsVia(exec func(q string, args ...interface{}) error, t *c11Table, rows []c11Row) {
+	if len(rows) == 0 {
+		return
+	}
 	colSet := map[string]bool{}
 	for _, r := range rows {
 		for k := range r {
@@ -418,10 +436,6 @@ func c11InsertRows(sqlDB *sql.DB, t *c11Table, rows []c11Row) {
 	per := 900 / len(cols)
 	if per < 1 {
 		per = 1
-	}
-	tx, err := sqlDB.Begin()
-	if err != nil {
-		panic(err)
 	}
 	for lo := 0; lo < len(rows); lo += per {
 		hi := lo + per
@@ -448,12 +462,9 @@ func c11InsertRows(sqlDB *sql.DB, t *c11Table, rows []c11Row) {
 			}
 		}
 		q := "INSERT INTO `" + t.Name + "` (" + strings.Join(cols, ",") + ") VALUES " + strings.TrimSuffix(strings.Repeat(one+",", hi-lo), ",")
-		if _, err := tx.Exec(q, args...); err != nil {
+		if err := exec(q, args...); err != nil {
 			panic(fmt.Sprintf("c11 load %s rows %d..%d: %v", t.Name, lo, hi, err))
 		}
-	}
-	if err := tx.Commit(); err != nil {
-		panic(err)
 	}
 }
 
@@ -682,9 +693,42 @@ func c11RunCase(cs c11Case) (got, want []string, err error) {
 	if f == nil {
 		return nil, nil, fmt.Errorf("unknown family %q", cs.World.Family)
 	}
+	if cs.Op.Ctx == "tx" || cs.Op.Ctx == "txprepare" {
+		return c11RunCaseInTx(f, cs)
+	}
 	db, closeFn := c11OpenWorld(f, cs.World)
 	defer closeFn()
 	return c11ExecCase(db, nil, cs)
+}
+
+// the world is inserted INSIDE a user transaction and the operation runs on the transaction handle before anything is
+// committed; afterwards the transaction is rolled back
+func c11RunCaseInTx(f *c11Family, cs c11Case) (got, want []string, err error) {
+	empty := c11World{Family: cs.World.Family, Tables: map[string][]c11Row{}}
+	db, closeFn := c11OpenWorld(f, empty)
+	defer closeFn()
+	if cs.Op.Ctx == "txprepare" {
+		db = db.Session(&gorm.Session{PrepareStmt: true})
+	}
+	tx := db.Begin()
+	if tx.Error != nil {
+		return nil, nil, tx.Error
+	}
+	defer tx.Rollback()
+	func() {
+		defer func() {
+			if p := recover(); p != nil {
+				err = fmt.Errorf("loading the world inside the transaction: %v", p)
+			}
+		}()
+		for _, t := range f.Tables {
+			c11InsertRowsVia(func(q string, args ...interface{}) error { return tx.Exec(q, args...).Error }, t, cs.World.Tables[t.Name])
+		}
+	}()
+	if err != nil {
+		return nil, nil, err
+	}
+	return c11ExecCase(tx, nil, cs)
 }
 
 // run the operation of one case on an opened world (the operations only read); ctx (optional) becomes the operation's context
@@ -698,6 +742,22 @@ func c11ExecCase(db *gorm.DB, ctx context.Context, cs c11Case) (got, want []stri
 	t := f.table(cs.Op.Parent)
 	w, op := cs.World, cs.Op
 	w.unscoped = op.Unscoped
+	switch op.Ctx {
+	case "prepare":
+		db = db.Session(&gorm.Session{PrepareStmt: true})
+	case "conn":
+		op.Ctx, cs.Op.Ctx = "", ""
+		cerr := db.Connection(func(pinned *gorm.DB) error {
+			// the handle db.Connection passes in is a chain handle (clone = 0: every chain call piles up on its one
+			// statement); as with any chain handle, independent operations are derived from a session of it
+			got, want, err = c11ExecCase(pinned.Session(&gorm.Session{NewDB: true}), ctx, cs)
+			return nil
+		})
+		if err == nil && cerr != nil {
+			err = cerr
+		}
+		return got, want, err
+	}
 	qn := "`" + t.Name + "`.`n`"
 	base := func() *gorm.DB {
 		q := db.Session(&gorm.Session{})
@@ -1179,6 +1239,9 @@ func (f *c11Family) genOp(rng *rand.Rand, w c11World) c11Op {
 		}
 		op.Count = rng.Intn(3) == 0
 		op.Unscoped = rng.Intn(5) == 0
+	}
+	if rng.Intn(5) == 0 {
+		op.Ctx = []string{"tx", "prepare", "conn", "txprepare"}[rng.Intn(4)]
 	}
 	return op
 }
